@@ -22,9 +22,26 @@ def main():
             rc = mod.run(ctx)
     except subprocess_timeout() as e:
         print('check timed out: %r' % (e,)); rc = 2
-    except Exception:
+    except Exception as e:
         traceback.print_exc()
         rc = 2
+        # an exception that was raised inside the code under test and that no scenario of the check is prepared for: the run shows pexpect
+        # leaving a scenario of this property by an unexpected exception (the seed reproduces the run; the stack is in the replay file)
+        try:
+            tb = traceback.extract_tb(e.__traceback__)
+            repo = os.path.realpath(common.REPO)
+            inner = [f for f in tb if os.path.realpath(f.filename).startswith(os.path.join(repo, 'pexpect') + os.sep)]
+            if inner and not a.replay:
+                f = inner[-1]
+                common.report(ctx, 'escaped-exception/%s/%s' % (type(e).__name__, f.name),
+                              'a scenario of the check could not be completed: %s raised in pexpect/%s:%d (%s) escaped: %s' % (
+                                  type(e).__name__, os.path.basename(f.filename), f.lineno, f.name, str(e)[:120]),
+                              dict(how='VERIF_SEED=%s ./check %s --tier %s' % (seed, a.prop, a.tier), stack=traceback.format_exception(type(e), e, e.__traceback__)[-12:]))
+                for v in ctx.violations:
+                    print('VIOLATION property=%s replay=%s %s' % (ctx.prop, os.path.relpath(v['replay'], common.ROOT), v['what'][:300].replace('\n', ' ')))
+                rc = 1
+        except Exception:
+            traceback.print_exc()
     finally:
         os.chdir('/')
         ctx.cleanup()
